@@ -4,7 +4,7 @@
     by the harness); a path is the list of its commands.  Relational inputs (supplied by the caller, checked
     by the judge where a relation exists): (cos, sin) of Rotate, the length and bounds of a drawn path, the
     bounds of a text, the pixel size of an image.  Definitions only; proofs in Ctx/ContextProofs.v. *)
-From Coq Require Import ZArith QArith List Bool.
+From Coq Require Import ZArith QArith Qround List Bool.
 From CV Require Import Base.Dy Geom.Matrix Ctx.DashCheck.
 Import ListNotations.
 Open Scope Q_scope.
@@ -118,7 +118,9 @@ Inductive op :=
   | Fill (len : Q) (b : rect) | Stroke (len : Q) (b : rect) | FillStroke (len : Q) (b : rect)
   | DrawPath (x y : Q) (ps : list pathin)
   | DrawText (x y : Q) (id : Z) (empty : bool) (b : rect)
-  | DrawImage (x y : Q) (id : Z) (wpx hpx : Z) (res : Q).
+  | DrawImage (x y : Q) (id : Z) (wpx hpx : Z) (res : Q)
+  (* FitImage(img, rect, fit): fit 0 ImageFill, 1 ImageContain, 2 ImageCover *)
+  | FitImage (r : rect) (fit : Z) (id : Z) (wpx hpx : Z).
 
 (** what is handed to the renderer: RenderPath(path, style, m) / RenderText(text, m) / RenderImage(img, m);
     [rb] is the object's own bounds (path.Bounds() / text.Bounds() / image size), used by Canvas.Fit *)
@@ -187,6 +189,31 @@ Definition image_matrix (W H : Q) (s : cstate) (x y : Q) (wpx hpx : Z) (res : Q)
   let m := if flipsY (csysm s) then mreflecty_about m (inject_Z hpx / 2) else m in
   mnorm (if flipsX (csysm s) then mreflectx_about m (inject_Z wpx / 2) else m).
 
+(** FitImage (canvas.go:572-633): placement (x, y), resolutions and, for ImageCover, the crop (dx, dy) taken off each side
+    of the image (int(v + 0.5) of a non-negative v = floor(v + 1/2)) *)
+Definition fit_params (r : rect) (fit : Z) (wpx hpx : Z) : Q * Q * Q * Q * Z * Z :=
+  let width := inject_Z wpx in let height := inject_Z hpx in
+  let xres := width / rW r in let yres := height / rH r in
+  if (fit =? 1)%Z then
+    if Qlt_le_dec xres yres then (rx0 r + (rW r - width / yres) / 2, ry0 r, yres, yres, 0%Z, 0%Z)
+    else (rx0 r, ry0 r + (rH r - height / xres) / 2, xres, xres, 0%Z, 0%Z)
+  else if (fit =? 2)%Z then
+    if Qlt_le_dec xres yres then
+      let dy := Qfloor ((height - rH r * xres) / 2 + (1 # 2)) in
+      let dy := if Qle_bool height (inject_Z (2 * dy)) then (dy - 1)%Z else dy in   (* keep at least one row *)
+      (rx0 r, ry0 r, xres, (height - inject_Z (2 * dy)) / rH r, 0%Z, dy)
+    else
+      let dx := Qfloor ((width - rW r * yres) / 2 + (1 # 2)) in
+      let dx := if Qle_bool width (inject_Z (2 * dx)) then (dx - 1)%Z else dx in    (* keep at least one column *)
+      (rx0 r, ry0 r, (width - inject_Z (2 * dx)) / rW r, yres, dx, 0%Z)
+  else (rx0 r, ry0 r, xres, yres, 0%Z, 0%Z).
+
+(** the matrix handed on with the (cropped) image of wc x hc pixels *)
+Definition fit_image_matrix (W H : Q) (s : cstate) (x y xres yres : Q) (wc hc : Z) : mat :=
+  let m := mscale (base_matrix W H s x y) (1 / xres) (1 / yres) in
+  let m := if flipsY (csysm s) then mreflecty_about m (inject_Z hc / 2) else m in
+  mnorm (if flipsX (csysm s) then mreflectx_about m (inject_Z wc / 2) else m).
+
 (** * step: new context, what is handed to the renderer (in order), and the z-index forwarded (if any).
     W, H are what Renderer.Size() returns at the time of the call. *)
 Definition ctx_step (W H : Q) (c : ctx) (o : op) : ctx * list rop :=
@@ -231,6 +258,13 @@ Definition ctx_step (W H : Q) (c : ctx) (o : op) : ctx * list rop :=
       (c, if (wpx =? 0)%Z && (hpx =? 0)%Z then []
           else [mkRop (OImage id wpx hpx) default_style (image_matrix W H s x y wpx hpx res)
                       (mkR 0 0 (inject_Z wpx) (inject_Z hpx))])
+  | FitImage r fit id wpx hpx =>
+      (* img.Bounds().Size().Eq(image.Point{}) || rect.Empty() *)
+      (c, if ((wpx =? 0)%Z && (hpx =? 0)%Z) || qequal (rW r) 0 || qequal (rH r) 0 then []
+          else let '(x, y, xres, yres, dx, dy) := fit_params r fit wpx hpx in
+               let wc := (wpx - 2 * dx)%Z in let hc := (hpx - 2 * dy)%Z in
+               [mkRop (OImage id wc hc) default_style (fit_image_matrix W H s x y xres yres wc hc)
+                      (mkR 0 0 (inject_Z wc) (inject_Z hc))])
   | _ => match view_op_matrix o with
          | Some q => (with_view c (mnorm (mmul (cview s) q)), [])
          | None => (c, [])
